@@ -14,7 +14,8 @@
  *                p<z> | e<z> ((x*z, y*z, z), tag PROJC / EXTND)   t<z> (as e<z> with T off by one: invalid T)
  *   scalar  hex with optional '-'
  *
- * Event: {"op","i", p,w,fd,mont (field header), "ca","cd" raw a,d, "n","h" order/cofactor (bn), "add" (ED_ADD),
+ * Event: {"op","i", p,w,fd,mont (field header), "ca","cd" raw a,d, "n","h" order/cofactor (bn), "add","mul","fix","sim"
+ *         (ED_ADD, ED_MUL, ED_FIX, ED_SIM),
  *         "fpb","fb","wd","dep","dgb","al", inputs "P","Q" raw points {x,y,z,t,c} / "k","m" bn / "dg" digit /
  *         "ps","ks" lists (before the call), outputs "R" raw point / "ret" / "bin" (after), "crash","err","code","unch"}
  */
@@ -210,6 +211,9 @@ static void hdr(const char *op, int al) {
 	vh_bn("n", N);
 	vh_bn("h", H);
 	vh_int("add", (long)ED_ADD);
+	vh_int("mul", (long)ED_MUL);
+	vh_int("fix", (long)ED_FIX);
+	vh_int("sim", (long)ED_SIM);
 	vh_int("fpb", (long)RLC_FP_BITS);
 	vh_int("fb", (long)RLC_FP_BYTES);
 	vh_int("wd", (long)RLC_WIDTH);
